@@ -986,6 +986,7 @@ func (a *auditor) auditFuncs(name, src, side string) (map[string][]string, error
 		inlineAdjacent(fd.Body)
 		mapPrimitives(fd, side)
 		renameParams(fd)
+		fd = canonFunc(fd)
 		var b bytes.Buffer
 		if err := printer.Fprint(&b, token.NewFileSet(), fd); err != nil {
 			return nil, err
